@@ -460,7 +460,7 @@ class Gen:
                 op["split"] = [[s, C(v)] for s, v in zip(strata_final, props)]
                 self.count("split:literal")
         if o.inexact_split_bias > 0 and "split" in op and len(op["split"]) >= 2 and r.random() < o.inexact_split_bias:
-            if o.allow_params and r.random() < 0.4:
+            if o.allow_params and o.allow_param_split and r.random() < 0.4:
                 pa, pb = self.new_param(SPLIT_PARAM_POOL), self.new_param(SPLIT_PARAM_POOL)
                 op["split"][0][1] = P(pa); op["split"][1][1] = P(pb)          # two independent parameters: nothing makes them sum to one
                 self.count("split:two_independent_params")
